@@ -618,6 +618,12 @@ def schema_cases(ctx):
         for dt in (0, 1, 2, 3, 4, 5, 255, 256):
             for n in sorted({1, 2, DS_LEN.get(dt, 7), DS_LEN.get(dt, 7) + 1}):
                 yield "rd-from-text", [41, rdtype, enc("60485 %s %d %s" % (rng.choice(["5", "8", "RSASHA1", "ED25519"]), dt, "ab" * n)), [None, 1, None]]
+    # gateways: Gateway._check runs inside Gateway.from_text, before the key tokens are read
+    for t in ('147 1 0 1"255.0.9 Oe6amw==', '10 1 2 1.2.3 "AQID', '10 0 2 x "AQID', '10 3 2 "x" AQID', '10 2 2 ::1 "AQID', '10 0 2 . "AQID',
+              "10 1 2 1.2.3.4 AQID", "10 4 2 . AQID", "10 0 0 .", "10 0 0 . "):
+        yield "rd-from-text", [41, 45, enc(t), [None, 1, None]]
+    for t in ('10 1 1 1.2.3 "', "10 0 0 x (", "10 1 3 x.", "10 2 0 .", "10 0 128 .", '10 1 2 ::1 "'):
+        yield "rd-from-text", [41, 260, enc(t), [None, 1, None]]
     # LOC: optional minutes / seconds / milliseconds, hemispheres, altitude and size spellings, float rounding
     for t in ('42 N 71 W 0m',
               '42 21 N 71 06 W -24m 30m',
